@@ -856,6 +856,8 @@ mod to_map;
 mod type_util;
 mod versioning;
 mod websocket;
+#[cfg(dropshot_verif)]
+pub mod verif;
 
 pub mod test_util;
 
